@@ -94,6 +94,22 @@ CONFIGS = [("plain", []), ("split", ["--split"]), ("keep", ["--keep"]), ("nocase
            ("all", ["--split", "--keep", "--no-change-case"])]
 
 EXTRA = {
+    # a constant and a type whose names meet after case conversion (SHOUTY_SNAKE for the constant, UpperCamel for the type): enums
+    # and typedefs are emitted as tuple structs, which also live in the value namespace
+    "nsclash": """enum E { A = 1 }
+const i32 e = 1
+typedef i64 K
+const string k = "x"
+struct V2 { 1: i32 x }
+const i32 v2 = 2
+typedef list<i32> Q7
+const i64 q7 = 7
+enum Mode { On = 1 }
+const Mode mode = Mode.On
+exception X1 { 1: string why }
+const i16 x1 = 3
+service Svc { i32 f(1: E a, 2: K b, 3: V2 c, 4: Q7 d, 5: Mode m) throws (1: X1 x) }
+""",
     "setconst": """const set<string> TAGS = ["a", "b"]
 const set<i32> SI = [1, 2]
 const set<double> SD = [1.5]
